@@ -196,3 +196,27 @@ Theorem C14_rfind_finds_last_occurrence : forall pat s i limit best d,
   i + N.of_nat d <= rfind_at pat s i limit best <= limit.
 Proof. exact rfind_at_ge. Qed.
 Print Assumptions C14_rfind_finds_last_occurrence.
+
+(* ---- terminate lines (detail::count_terminates) ---- *)
+From Msm Require Import Lemmas_PumlTerm.
+
+(* count_terminates of a description whose first line carries no "[*]" (descriptions start with @startuml) is the number
+   of lines in which an arrow stands in front of the "[*]" on the same line - initial lines ("[*] -> State": the arrow
+   behind the "[*]"), other lines and the text behind a "[*]" are passed over; the backwards search for the arrow may
+   reach into earlier lines, the position of the line end in front of the "[*]" keeps the count on the line.
+   For every number of lines of every length.  (A terminate line that is the very first line of the text is not
+   counted by the library - rfind of the line end answers npos; outside the quantifier, noted in DESIGN.md.) *)
+Theorem C14_count_terminates_exact : forall l0 rest,
+  idxp c_initstar l0 = None -> Forall line_ok rest -> Forall single_star rest -> size (join_nl (l0 :: rest)) < npos ->
+  count_terminates (join_nl (l0 :: rest)) = length (filter is_termb rest).
+Proof. exact count_terminates_exact. Qed.
+Print Assumptions C14_count_terminates_exact.
+
+(* "@" / "A -> B : e" / "B -> [*]" / "[*] --> A" / "  C --> [*]  " / "": two terminate lines; the arrow of line 2 lies
+   in front of the "[*]" of line 3 but on another line *)
+Example C14_count_terminates_example :
+  let lines := [[64]; [65;32;45;62;32;66;32;58;32;101]; [66;32;45;62;32;91;42;93]; [91;42;93;32;45;45;62;32;65];
+                [32;32;67;32;45;45;62;32;91;42;93;32;32]; []]%nat in
+  Forall line_ok lines /\ Forall single_star lines /\ map is_termb lines = [false; false; true; false; true; false] /\
+  count_terminates (join_nl lines) = 2%nat.
+Proof. cbv zeta. split; [repeat constructor|]. split; [repeat constructor|]. vm_compute. auto. Qed.
